@@ -269,11 +269,12 @@ pub struct Pgcat {
     pub t_spawn: u64,
 }
 
-fn free_port() -> u16 {
-    // ports from a private range derived from pid + counter; verify by binding
+pub fn free_port() -> u16 {
+    // ports from a private range below the kernel's ephemeral range (32768..), derived from
+    // pid + a process-wide counter (no two cells of one run get the same one); verified by binding
     for _ in 0..1000 {
         let n = RUN_SEQ.fetch_add(1, Ordering::SeqCst);
-        let base = 20000 + ((std::process::id() as u64 * 131 + n * 7) % 30000) as u16;
+        let base = 20000 + ((std::process::id() as u64 * 131 + n * 7) % 12000) as u16;
         if let Ok(l) = std::net::TcpListener::bind(("127.0.0.1", base)) {
             drop(l);
             return base;
@@ -414,6 +415,20 @@ impl Pgcat {
             )
             .is_ok()
             {
+                // somebody listens on the port: make sure it is this child (another process may
+                // have taken the port between the probe and the child's bind)
+                std::thread::sleep(Duration::from_millis(15));
+                if let Ok(Some(st)) = p.child.try_wait() {
+                    p.exited = Some(st);
+                    std::thread::sleep(Duration::from_millis(20));
+                    return Err(StartErr::Exited(st.code(), p.log_text()));
+                }
+                if p.log_text().contains("Listener socket error") {
+                    let _ = p.child.kill();
+                    let st = p.child.wait().ok();
+                    p.exited = st;
+                    return Err(StartErr::Exited(st.and_then(|s| s.code()), p.log_text()));
+                }
                 return Ok(p);
             }
             if now_ns() > deadline {
